@@ -60,6 +60,10 @@ func (g *Generator) makeGetSet() {
 					setIfaces = append(setIfaces, types.TypeString(named, g.qualifier))
 				}
 
+				if named == nil {
+					//not instantiable for this embedded type
+					continue
+				}
 				iface, ok := named.Underlying().(*types.Interface)
 				if ok {
 					for i := 0; i < iface.NumMethods(); i++ {
